@@ -7,6 +7,8 @@ pub use self::offset_page_table::OffsetPageTable;
 pub use self::recursive_page_table::{InvalidPageTable, RecursivePageTable};
 #[cfg(all(x86_64_verif, feature = "instructions", target_arch = "x86_64"))]
 pub use self::recursive_page_table::{verif_p1_page, verif_p2_page, verif_p3_page};
+#[cfg(all(x86_64_verif, feature = "instructions", target_arch = "x86_64"))]
+pub use self::recursive_page_table::{verif_p1_ptr, verif_p2_ptr, verif_p3_ptr};
 
 use crate::structures::paging::{
     frame_alloc::{FrameAllocator, FrameDeallocator},
